@@ -605,4 +605,525 @@ example : toyPickle.Contract where
        | 0, _ => simp
        | 1, _ => simp)
 
+
+/-! ### C14_no_resurrection -/
+
+/-- a stored record from which `load` returns nothing: expired, empty, or unreadable -/
+def DeadRec (now : Nat) : Rec → Prop
+  | .good d e => e < now ∨ d = []
+  | .bad _ => True
+
+/-- every record the store holds under `i` is dead (the store holds nothing returnable for `i`) -/
+def DeadAll (st : St) (i : Id) : Prop := ∀ r, (i, r) ∈ st.store → DeadRec st.now r
+
+def NoWrite (hs : List HOp) : Prop := ∀ k v, HOp.write k v ∉ hs
+
+/-- the only way new data may appear under `i`: a request presenting `i` whose handler writes it -/
+def WritesNot (i : Id) : Op → Prop
+  | .req ck hs => Cookie.presented ck = some i → NoWrite hs
+  | _ => True
+
+/-- the id source does not yield `i` from now on (true of every id already drawn when the source
+    is injective) -/
+def FutureNot (cfg : Cfg) (st : St) (i : Id) : Prop := ∀ n, st.ctr ≤ n → cfg.gen n ≠ i
+
+theorem DeadRec_mono {now now' : Nat} {r : Rec} (h : DeadRec now r) (hle : now ≤ now') : DeadRec now' r := by
+  cases r with
+  | good d e => rcases h with h | h; exact Or.inl (by omega); exact Or.inr h
+  | bad x => trivial
+
+theorem DeadAll_of_absent {st : St} {i : Id} (h : lookup st.store i = none) : DeadAll st i :=
+  fun r hm => absurd hm (not_mem_of_lookup_none h r)
+
+/-- expiry: once the clock has passed the expiry of the only record under `i`, it is dead -/
+theorem C14_expired_dead (st : St) (i : Id) (d : Data) (e : Nat)
+    (honly : ∀ r, (i, r) ∈ st.store → r = .good d e) (hexp : e < st.now) : DeadAll st i := by
+  intro r hm
+  rw [honly r hm]
+  exact Or.inl hexp
+
+theorem loadData_dead {st : St} {i : Id} (hd : DeadAll st i) {d : Data} (h : loadData st i = some d) :
+    d = [] := by
+  unfold loadData at h
+  split at h
+  · cases h; rfl
+  · rename_i d' e hl
+    have := hd _ (lookup_mem hl)
+    split at h
+    · cases h; rfl
+    · rename_i hne
+      cases h
+      rcases this with h1 | h1
+      · exact absurd h1 hne
+      · exact h1
+  · cases h
+  · cases h; rfl
+
+/-- invariant of a request on a store in which `i` is dead -/
+def DeadInv (_cfg : Cfg) (st0 : St) (ck : Cookie) (i : Id) (st : St) (s : Sess) : Prop :=
+  st.now = st0.now ∧ st0.ctr ≤ st.ctr ∧ DeadAll st i ∧
+  (s.id = i → Cookie.presented ck = some i) ∧
+  (Cookie.presented ck = some i →
+     s.data = [] ∧ (∀ d ∈ s.reads, d = []) ∧ (s.loaded = false → DeadAll st s.id))
+
+theorem DeadAll_sub {st st' : St} {i : Id} (hd : DeadAll st i) (hn : st'.now = st.now)
+    (hsub : ∀ p, p ∈ st'.store → p ∈ st.store) : DeadAll st' i :=
+  fun r hm => by rw [hn]; exact hd r (hsub _ hm)
+
+theorem hop_dead {cfg : Cfg} {st0 : St} {ck : Cookie} {i : Id} (hf : FutureNot cfg st0 i)
+    (st : St) (s : Sess) (h : HOp)
+    (hw : Cookie.presented ck = some i → ∀ k v, h ≠ .write k v)
+    (hp : DeadInv cfg st0 ck i st s) :
+    DeadInv cfg st0 ck i (hop cfg st s h).st (hop cfg st s h).sess := by
+  obtain ⟨hnow, hctr, hdead, hid, hpres⟩ := hp
+  -- statements that only go through `ensureLoaded`
+  have loaded : ∀ s' : Sess, ensureLoaded st s = some s' →
+      (s'.id = i → Cookie.presented ck = some i) ∧
+      (Cookie.presented ck = some i → s'.data = [] ∧ (∀ d ∈ s'.reads, d = [])) := by
+    intro s' hs'
+    obtain ⟨e1, e2, e3, _, e5, e6⟩ := ensureLoaded_spec hs'
+    refine ⟨fun h => hid (e1 ▸ h), fun hc => ?_⟩
+    obtain ⟨a, b, c⟩ := hpres hc
+    refine ⟨?_, by rw [e3]; exact b⟩
+    cases hl : s.loaded with
+    | true => rw [e5 hl]; exact a
+    | false => exact loadData_dead (c hl) (e6 hl)
+  cases h with
+  | read =>
+    simp only [hop]
+    split
+    · exact ⟨hnow, hctr, hdead, hid, hpres⟩
+    · rename_i s' hs'
+      obtain ⟨l1, l2⟩ := loaded s' hs'
+      have e2 := (ensureLoaded_spec hs').2.1
+      refine ⟨hnow, hctr, hdead, l1, fun hc => ⟨(l2 hc).1, ?_, fun h => ?_⟩⟩
+      · intro d hd
+        have hd' : d ∈ s'.reads ++ [s'.data] := hd
+        simp only [List.mem_append, List.mem_singleton] at hd'
+        rcases hd' with hd | hd
+        · exact (l2 hc).2 d hd
+        · rw [hd]; exact (l2 hc).1
+      · have h' : s'.loaded = false := h
+        rw [e2] at h'; cases h'
+  | write k v =>
+    simp only [hop]
+    split
+    · exact ⟨hnow, hctr, hdead, hid, hpres⟩
+    · rename_i s' hs'
+      obtain ⟨l1, _⟩ := loaded s' hs'
+      exact ⟨hnow, hctr, hdead, l1, fun hc => absurd rfl (hw hc k v)⟩
+  | delKey k =>
+    simp only [hop]
+    split
+    · exact ⟨hnow, hctr, hdead, hid, hpres⟩
+    · rename_i s' hs'
+      obtain ⟨l1, l2⟩ := loaded s' hs'
+      have e2 := (ensureLoaded_spec hs').2.1
+      refine ⟨hnow, hctr, hdead, l1, fun hc => ⟨?_, (l2 hc).2, fun h => ?_⟩⟩
+      · show ddel s'.data k = []
+        rw [(l2 hc).1]; rfl
+      · have h' : s'.loaded = false := h
+        rw [e2] at h'; cases h'
+  | clear =>
+    simp only [hop]
+    split
+    · exact ⟨hnow, hctr, hdead, hid, hpres⟩
+    · rename_i s' hs'
+      obtain ⟨l1, l2⟩ := loaded s' hs'
+      have e2 := (ensureLoaded_spec hs').2.1
+      refine ⟨hnow, hctr, hdead, l1, fun hc => ⟨rfl, (l2 hc).2, fun h => ?_⟩⟩
+      have h' : s'.loaded = false := h
+      rw [e2] at h'; cases h'
+  | regenerate =>
+    simp only [hop]
+    have hsub : ∀ p, p ∈ erase st.store s.id → p ∈ st.store :=
+      fun p hm => (mem_erase (j := p.1) (r := p.2) hm).1
+    split
+    · refine ⟨hnow, hctr, DeadAll_sub hdead rfl hsub, hid, fun hc => ?_⟩
+      obtain ⟨a, b, c⟩ := hpres hc
+      exact ⟨a, b, fun hl => DeadAll_sub (c hl) rfl hsub⟩
+    · rename_i j st2 hn
+      obtain ⟨n1, n2, n3, n, n4, n5, n6⟩ := newId_spec hn
+      simp only at n1 n2 n3 n4
+      simp only [HRes.st, HRes.sess]
+      have hji : j ≠ i := by rw [n6]; exact hf n (by omega)
+      refine ⟨by rw [n3]; exact hnow, by omega, ?_, fun h => absurd h hji, fun hc => ?_⟩
+      · exact DeadAll_sub hdead n3 (fun p hm => hsub p (n2 ▸ hm))
+      · obtain ⟨a, b, _⟩ := hpres hc
+        refine ⟨a, b, fun _ => ?_⟩
+        intro r hm
+        rw [n2] at hm
+        exact absurd hm (not_mem_of_lookup_none (has_false_iff.mp n1) r)
+  | delete =>
+    simp only [hop]
+    have hsub : ∀ p, p ∈ erase st.store s.id → p ∈ st.store :=
+      fun p hm => (mem_erase (j := p.1) (r := p.2) hm).1
+    split
+    · refine ⟨hnow, hctr, DeadAll_sub hdead rfl hsub, hid, fun hc => ?_⟩
+      obtain ⟨_, b, _⟩ := hpres hc
+      refine ⟨rfl, b, fun _ => ?_⟩
+      intro r hm
+      exact absurd rfl (mem_erase hm).2
+    · refine ⟨hnow, hctr, DeadAll_sub hdead rfl hsub, hid, fun hc => ?_⟩
+      obtain ⟨a, b, c⟩ := hpres hc
+      exact ⟨a, b, fun hl => DeadAll_sub (c hl) rfl hsub⟩
+  | expire => exact ⟨hnow, hctr, hdead, hid, hpres⟩
+
+/-- One request on a store in which `i` is dead: `i` stays dead, and if the request presents `i`
+    (without writing) every read of its handler is empty. -/
+theorem request_dead (cfg : Cfg) (st : St) (ck : Cookie) (hops : List HOp) (i : Id)
+    (hd : DeadAll st i) (hf : FutureNot cfg st i)
+    (hw : Cookie.presented ck = some i → NoWrite hops) :
+    DeadAll (request cfg st ck hops).1 i ∧ st.ctr ≤ (request cfg st ck hops).1.ctr ∧
+    (Cookie.presented ck = some i → ∀ d ∈ (request cfg st ck hops).2.reads, d = []) := by
+  unfold request
+  split
+  · exact ⟨hd, Nat.le_refl _, fun _ d hm => by cases hm⟩
+  · rename_i s0 st0 hi
+    obtain ⟨e1, e2, e3, e4, e5, _, e7, ho⟩ := initSess_spec hi
+    have h0 : DeadInv cfg st ck i st0 s0 := by
+      refine ⟨e2, e7, DeadAll_sub hd e2 (fun p hm => e1 ▸ hm), ?_, fun hc => ⟨e3, (by rw [e5]; intro d hm; cases hm), fun _ => ?_⟩⟩
+      · intro hid
+        rcases ho with ⟨a, _, _⟩ | ⟨_, n, a, _, c⟩
+        · rw [hid] at a; exact a
+        · exact absurd (hid ▸ c).symm (hf n a)
+      · rcases ho with ⟨a, _, c⟩ | ⟨a, _⟩
+        · rw [hc] at a; cases a; rw [c]; exact hd
+        · intro r hm
+          rw [e1] at hm
+          exact absurd hm (not_mem_of_lookup_none (has_false_iff.mp a) r)
+    have hfin := runHops_induct (cfg := cfg) (DeadInv cfg st ck i) hops
+      (fun st1 s h hm hp => hop_dead hf st1 s h
+        (fun hc k v e => hw hc k v (e ▸ hm)) hp) st0 s0 h0
+    split
+    · rename_i st1 s1 hr
+      rw [hr] at hfin
+      simp only [HRes.st, HRes.sess] at hfin
+      obtain ⟨a, b, c, d, e⟩ := hfin
+      refine ⟨?_, ?_, fun hc => (e hc).2.1⟩
+      · simp only [saveSess]
+        split
+        · intro r hm
+          simp only at hm
+          rcases mem_upsert hm with ⟨h1, h2⟩ | ⟨_, h2⟩
+          · rw [h2]
+            exact Or.inr (e (d h1.symm)).1
+          · exact c r h2
+        · exact c
+      · simp only [saveSess]; split <;> exact b
+    · rename_i x st1 s1 hr
+      rw [hr] at hfin
+      simp only [HRes.st, HRes.sess] at hfin
+      obtain ⟨a, b, c, d, e⟩ := hfin
+      exact ⟨c, b, fun hc => (e hc).2.1⟩
+
+theorem step_dead (cfg : Cfg) (st : St) (op : Op) (i : Id)
+    (hd : DeadAll st i) (hf : FutureNot cfg st i) (hw : WritesNot i op) :
+    DeadAll (step cfg st op).1 i ∧ FutureNot cfg (step cfg st op).1 i := by
+  cases op with
+  | req ck hops =>
+    obtain ⟨a, b, _⟩ := request_dead cfg st ck hops i hd hf hw
+    exact ⟨a, fun n hn => hf n (by simp only [step] at hn; omega)⟩
+  | advance k =>
+    exact ⟨fun r hm => DeadRec_mono (hd r hm) (by simp only [step]; omega), hf⟩
+  | sweep =>
+    simp only [step]
+    split
+    · exact ⟨fun r hm => hd r (mem_sweepFile_sub hm), hf⟩
+    · exact ⟨fun r hm => hd r (mem_sweepRam.mp hm).1, hf⟩
+  | tear j x =>
+    simp only [step]
+    split
+    · refine ⟨fun r hm => ?_, hf⟩
+      simp only at hm
+      rcases mem_upsert hm with ⟨_, h2⟩ | ⟨_, h2⟩
+      · rw [h2]; trivial
+      · exact hd r h2
+    · exact ⟨hd, hf⟩
+
+/-- **No resurrection.**  Once nothing returnable is stored under `i` (expired, deleted, regenerated
+    away, torn), it stays so through every history — other clients' requests with any handler, requests
+    presenting `i` that do not write, clock advances, sweeps of either backend, file damage — and a
+    request presenting `i` at the end reads nothing.  (The only way back is a request presenting `i`
+    that itself writes new data.) -/
+theorem C14_no_resurrection (cfg : Cfg) (ops : List Op) (st : St) (i : Id)
+    (hd : DeadAll st i) (hf : FutureNot cfg st i) (hw : ∀ op ∈ ops, WritesNot i op)
+    (hops : List HOp) (hnw : NoWrite hops) :
+    DeadAll (runSt cfg st ops) i ∧
+    ∀ d ∈ (request cfg (runSt cfg st ops) (.id i) hops).2.reads, d = [] := by
+  induction ops generalizing st with
+  | nil =>
+    exact ⟨hd, (request_dead cfg st (.id i) hops i hd hf (fun _ => hnw)).2.2 rfl⟩
+  | cons o os ih =>
+    rw [runSt_cons]
+    obtain ⟨a, b⟩ := step_dead cfg st o i hd hf (hw o List.mem_cons_self)
+    exact ih _ a b (fun op hm => hw op (List.mem_cons_of_mem _ hm))
+
+/-- `delete()` (repaired, 8042c0e) as the last statement of a handler that did not regenerate: nothing
+    is stored under the id afterwards, whatever the handler read or wrote before. -/
+def C14_delete_full (cfg : Cfg) : Prop :=
+  ∀ (st : St) (i : Id) (pre : List HOp), has st.store i = true → HOp.regenerate ∉ pre →
+    (request cfg st (.id i) (pre ++ [.delete])).2.status = .ok →
+    lookup (request cfg st (.id i) (pre ++ [.delete])).1.store i = none
+
+theorem runHops_append (cfg : Cfg) (a b : List HOp) (st : St) (s : Sess) :
+    runHops cfg st s (a ++ b) =
+      match runHops cfg st s a with
+      | .ok st' s' => runHops cfg st' s' b
+      | .fail e st' s' => .fail e st' s' := by
+  induction a generalizing st s with
+  | nil => rfl
+  | cons h hs ih =>
+    simp only [List.cons_append, runHops]
+    split
+    · exact ih _ _
+    · rfl
+
+theorem hop_fail_status {cfg : Cfg} {st st' : St} {s s' : Sess} {h : HOp} {e : Status}
+    (hf : hop cfg st s h = .fail e st' s') : e ≠ .ok := by
+  cases h with
+  | read => simp only [hop] at hf; split at hf <;> cases hf; intro hc; cases hc
+  | write k v => simp only [hop] at hf; split at hf <;> cases hf; intro hc; cases hc
+  | delKey k => simp only [hop] at hf; split at hf <;> cases hf; intro hc; cases hc
+  | clear => simp only [hop] at hf; split at hf <;> cases hf; intro hc; cases hc
+  | regenerate => simp only [hop] at hf; split at hf <;> cases hf; intro hc; cases hc
+  | delete => simp only [hop] at hf; split at hf <;> cases hf
+  | expire => simp only [hop] at hf; cases hf
+
+theorem runHops_fail_status {cfg : Cfg} (hs : List HOp) {st st' : St} {s s' : Sess} {e : Status}
+    (hf : runHops cfg st s hs = .fail e st' s') : e ≠ .ok := by
+  induction hs generalizing st s with
+  | nil => simp [runHops] at hf
+  | cons h hs ih =>
+    simp only [runHops] at hf
+    split at hf
+    · exact ih hf
+    · rename_i e1 st1 s1 h1
+      cases hf
+      exact hop_fail_status h1
+
+theorem C14_delete_dead (cfg : Cfg) (hfix : cfg.deleteForgets = true) : C14_delete_full cfg := by
+  intro st i pre hhas hnr hok
+  unfold request at hok ⊢
+  simp only [initSess, hhas, if_true] at hok ⊢
+  have hfin := runHops_induct (cfg := cfg) (fun _ s => s.id = i) pre
+    (fun st1 s h hm hp => by
+      rw [hop_id cfg st1 s h (fun e => hnr (e ▸ hm))]; exact hp) st { id := i } rfl
+  rw [runHops_append] at hok ⊢
+  cases hr : runHops cfg st { id := i } pre with
+  | fail e st1 s1 =>
+    rw [hr] at hok
+    simp only at hok
+    exact absurd hok (runHops_fail_status pre hr)
+  | ok st1 s1 =>
+    rw [hr] at hfin
+    simp only [HRes.sess] at hfin
+    simp only [runHops, hop, hfix, if_true, saveSess]
+    simp only [Bool.false_eq_true, if_false]
+    rw [hfin]
+    exact lookup_erase_self _ _
+
+/-- Before the repair (`deleteForgets = false`: `delete()` left the request's copy loaded) the
+    end-of-request `save` wrote the deleted data back: the statement was false (finding F14b). -/
+theorem C14_delete_full_false_before_fix :
+    ¬ C14_delete_full { file := false, timeout := 1, gen := fun n => n + 1, deleteForgets := false } := by
+  intro h
+  have := h { store := [(1, .good [(1, 1)] 5)] } 1 [.read] (by decide) (by decide) (by decide)
+  revert this
+  decide
+
+/-- `regenerate()`: from that statement on nothing is stored under the old id, whatever the rest of
+    the handler does, and the `save` hook does not bring it back. -/
+theorem C14_regenerate_dead (cfg : Cfg) (st : St) (i : Id) (pre post : List HOp)
+    (hhas : has st.store i = true) (hnr : HOp.regenerate ∉ pre) (hf : FutureNot cfg st i) :
+    (request cfg st (.id i) (pre ++ .regenerate :: post)).2.status = .ok →
+    lookup (request cfg st (.id i) (pre ++ .regenerate :: post)).1.store i = none := by
+  intro hok
+  unfold request at hok ⊢
+  simp only [initSess, hhas, if_true] at hok ⊢
+  have hpre := runHops_induct (cfg := cfg) (fun st1 s => s.id = i ∧ st.ctr ≤ st1.ctr) pre
+    (fun st1 s h hm hp => by
+      rw [hop_id cfg st1 s h (fun e => hnr (e ▸ hm))]
+      exact ⟨hp.1, Nat.le_trans hp.2 (hop_ctr cfg st1 s h)⟩) st { id := i } ⟨rfl, Nat.le_refl _⟩
+  rw [runHops_append] at hok ⊢
+  cases hr : runHops cfg st { id := i } pre with
+  | fail e st1 s1 =>
+    rw [hr] at hok
+    simp only at hok
+    exact absurd hok (runHops_fail_status pre hr)
+  | ok st1 s1 =>
+    rw [hr] at hpre hok
+    simp only [HRes.st, HRes.sess] at hpre
+    simp only [runHops] at hok ⊢
+    -- the regenerate statement itself
+    cases hreg : hop cfg st1 s1 .regenerate with
+    | fail e st2 s2 =>
+      rw [hreg] at hok
+      simp only at hok
+      exact absurd hok (hop_fail_status hreg)
+    | ok st2 s2 =>
+      rw [hreg] at hok
+      simp only at hok ⊢
+      obtain ⟨g1, g2⟩ := C14_regenerate_fresh cfg st1 st2 s1 s2 hreg
+      rw [hpre.1] at g2
+      have hctr2 : st.ctr ≤ st2.ctr := by
+        have := hop_ctr cfg st1 s1 .regenerate
+        rw [hreg] at this
+        exact Nat.le_trans hpre.2 this
+      have hid2 : s2.id ≠ i := by
+        simp only [hop] at hreg
+        split at hreg
+        · cases hreg
+        · rename_i j st3 hn
+          obtain ⟨_, _, _, n, n4, _, n6⟩ := newId_spec hn
+          cases hreg
+          simp only at n4
+          rw [n6]; exact hf n (by omega)
+      have hpost := runHops_induct (cfg := cfg)
+        (fun st3 s => s.id ≠ i ∧ lookup st3.store i = none ∧ st.ctr ≤ st3.ctr) post
+        (fun st3 s h _ hp => by
+          refine ⟨?_, ?_, Nat.le_trans hp.2.2 (hop_ctr cfg st3 s h)⟩
+          · by_cases hr : h = .regenerate
+            · subst hr
+              simp only [hop]; split
+              · exact hp.1
+              · rename_i j st4 hn
+                obtain ⟨_, _, _, n, n4, _, n6⟩ := newId_spec hn
+                simp only [HRes.sess]
+                simp only at n4
+                have := hp.2.2
+                rw [n6]; exact hf n (by omega)
+            · rw [hop_id cfg st3 s h hr]; exact hp.1
+          · rw [hop_lookup_other cfg st3 s h i hp.1]; exact hp.2.1)
+        st2 s2 ⟨hid2, g2, hctr2⟩
+      cases hr3 : runHops cfg st2 s2 post with
+      | fail e st3 s3 =>
+        rw [hr3] at hok
+        simp only at hok
+        exact absurd hok (runHops_fail_status post hr3)
+      | ok st3 s3 =>
+        rw [hr3] at hpost
+        simp only [HRes.st, HRes.sess] at hpost
+        simp only [saveSess]
+        split
+        · simp only; rw [lookup_upsert_ne _ _ (Ne.symm hpost.1)]; exact hpost.2.1
+        · exact hpost.2.1
+
+-- non-vacuity of the hypotheses above: a dead id, a source that has moved past it, a mixed history
+def exDeadSt : St := { store := [(1, .good [(1, 7)] 2), (2, .good [(2, 2)] 9)], now := 3, ctr := 2 }
+
+example : DeadAll exDeadSt 1 := by
+  intro r hm
+  simp only [exDeadSt, List.mem_cons, List.not_mem_nil, or_false, Prod.mk.injEq] at hm
+  rcases hm with ⟨_, rfl⟩ | ⟨h, _⟩
+  · exact Or.inl (by decide)
+  · cases h
+
+example : FutureNot exCfg exDeadSt 1 := by
+  intro n hn
+  have hn' : 2 ≤ n := hn
+  show n + 1 ≠ 1
+  omega
+
+example : (request exCfg exDeadSt (.id 1) [.read, .delKey 1, .read]).2 = ⟨.ok, some 1, false, [[], []]⟩ := by
+  decide
+
+/-! ### damaged files that are not truncated pickles (finding F14d) -/
+
+/-- "a damaged session file is never an error": the reading of the statement that covers *every*
+    file content.  False on the unchanged tree; the part that holds is `C14_damaged_partial`. -/
+def C14_damaged_full : Prop :=
+  ∀ (cfg : Cfg) (st : St) (ck : Cookie) (hops : List HOp),
+    (request cfg st ck hops).2.status ≠ .err500 ∧ (sweepFile st.now st.store).2 = false
+
+theorem C14_damaged_full_false : ¬ C14_damaged_full := by
+  intro h
+  have := (h exCfg { store := [(1, .bad .other)] } (.id 1) [.read]).1
+  revert this
+  decide
+
+/-- the sweep is left at the first such file: the expired session behind it stays (witness) -/
+theorem C14_sweep_abort_witness :
+    sweepFile 5 [(1, .good [] 1), (2, .bad .other), (3, .good [] 1)] =
+      ([(2, .bad .other), (3, .good [] 1)], true) := by decide
+
+theorem runHops_no500 (cfg : Cfg) (hs : List HOp) (st : St) (s : Sess) (hb : NoOther st.store) :
+    ∀ e st' s', runHops cfg st s hs = .fail e st' s' → e ≠ .err500 := by
+  induction hs generalizing st s with
+  | nil => intro e st' s' h; simp [runHops] at h
+  | cons h hs ih =>
+    intro e st' s' hr
+    simp only [runHops] at hr
+    have hload : ∀ s : Sess, ensureLoaded st s ≠ none := by
+      intro s hn
+      unfold ensureLoaded at hn
+      split at hn
+      · cases hn
+      · obtain ⟨d, hd⟩ := loadData_benign hb s.id
+        rw [hd] at hn
+        cases hn
+    split at hr
+    · rename_i st1 s1 h1
+      have hsub : NoOther st1.store := by
+        intro j hm
+        have := hop_store_sub cfg st s h (j, .bad .other) (by rw [h1]; exact hm)
+        exact hb j this
+      exact ih st1 s1 hsub e st' s' hr
+    · rename_i e1 st1 s1 h1
+      cases hr
+      cases h with
+      | read => simp only [hop] at h1; split at h1
+                · rename_i hn; exact absurd hn (hload s)
+                · cases h1
+      | write k v => simp only [hop] at h1; split at h1
+                     · rename_i hn; exact absurd hn (hload s)
+                     · cases h1
+      | delKey k => simp only [hop] at h1; split at h1
+                    · rename_i hn; exact absurd hn (hload s)
+                    · cases h1
+      | clear => simp only [hop] at h1; split at h1
+                 · rename_i hn; exact absurd hn (hload s)
+                 · cases h1
+      | regenerate => simp only [hop] at h1; split at h1
+                      · cases h1; intro hc; cases hc
+                      · cases h1
+      | delete => simp only [hop] at h1; split at h1 <;> cases h1
+      | expire => simp only [hop] at h1; cases h1
+
+/-- **Partial statement that holds**: while every damaged file is of a class `_load` maps to "no
+    session" (in particular every truncation of a saved file, `torn_prefix_benign`), no request is
+    answered 500, whatever the cookie and the handler, and the sweep runs to the end. -/
+theorem C14_damaged_partial (cfg : Cfg) (st : St) (ck : Cookie) (hops : List HOp)
+    (hb : NoOther st.store) :
+    (request cfg st ck hops).2.status ≠ .err500 ∧ (sweepFile st.now st.store).2 = false := by
+  refine ⟨?_, sweepFile_not_aborted hb⟩
+  unfold request
+  split
+  · rename_i e hi
+    intro hc
+    simp only at hc
+    subst hc
+    cases ck with
+    | none => simp only [initSess] at hi; split at hi <;> cases hi
+    | id c => simp only [initSess] at hi; split at hi
+              · cases hi
+              · split at hi <;> cases hi
+    | escaping c =>
+      simp only [initSess] at hi; split at hi
+      · cases hi
+      · split at hi
+        · cases hi
+        · split at hi <;> cases hi
+  · rename_i s0 st0 hi
+    obtain ⟨e1, _⟩ := initSess_spec hi
+    split
+    · intro hc; cases hc
+    · rename_i e st1 s1 hr
+      exact runHops_no500 cfg hops st0 s0 (by rw [e1]; exact hb) e st1 s1 hr
+
+example : NoOther [(1, Rec.bad .eof), (2, .good [] 3)] := by
+  intro i hm
+  simp only [List.mem_cons, List.not_mem_nil, or_false, Prod.mk.injEq] at hm
+  rcases hm with ⟨_, h⟩ | ⟨_, h⟩ <;> cases h
+
 end CpProofs.C14
